@@ -225,6 +225,19 @@ func stressPkg(n, iters int, r *stressRes) {
 				} else if pt, err := sm2.Decrypt(j.key, ct, sm2.C1C3C2); err != nil || !bytes.Equal(pt, j.msg) {
 					r.bad("Decrypt does not return the plaintext (goroutine %d): %v", g, err)
 				}
+				// the degenerate message (no key stream at all) takes the early-exit paths of the key derivation; it must leave
+				// nothing behind that a concurrent or later call could trip over
+				if ct0, err := sm2.Encrypt(&j.key.PublicKey, nil, rand.Reader, sm2.C1C3C2); err != nil {
+					r.bad("Encrypt of the empty message: %v", err)
+				} else if pt0, err := sm2.Decrypt(j.key, ct0, sm2.C1C3C2); err != nil || len(pt0) != 0 {
+					r.bad("Decrypt of the empty message (goroutine %d): %v", g, err)
+				}
+				big := bytes.Repeat(j.msg, 40)
+				if ctb, err := sm2.Encrypt(&j.key.PublicKey, big, rand.Reader, sm2.C1C2C3); err != nil {
+					r.bad("Encrypt (4 to 27 KiB): %v", err)
+				} else if ptb, err := sm2.Decrypt(j.key, ctb, sm2.C1C2C3); err != nil || !bytes.Equal(ptb, big) {
+					r.bad("Decrypt of 4 to 27 KiB does not return the plaintext (goroutine %d): %v", g, err)
+				}
 				c, err := x509.ParseCertificate(j.cert)
 				if err != nil || !bytes.Equal(c.Raw, j.cert) {
 					r.bad("ParseCertificate: %v", err)
